@@ -139,6 +139,7 @@ GEN_OUTPUT = {
     "facts": "Facts.lean", "accessor": "AccessorGo.lean", "functions": "FunctionsGo.lean", "errors": "ErrorsGo.lean",
     "queries": "QueriesGo.lean", "nodes": "NodesGo.lean", "parsewrap": "ParseWrapGo.lean",
     "parser_helpers": "ParserHelpersGo.lean", "actions": "ActionsGo.lean", "pegrules": "PegGoRules.lean", "pegruntime": "PegRuntimeGo.lean", "errtexts": "ErrTexts.lean", "configgo": "ConfigGo.lean",
+    "syntaxerr": "SyntaxErrGo.lean",
 }
 
 
